@@ -24,7 +24,11 @@ RULE = ('A case is (packets, mode, cipher, cuts): 0-12 (quick) / 0-40 '
         'EncryptedFileObjectWrapper) into the real PacketReactor.read_packet; '
         'oracle: same (id, payload) sequence, unknown ids as generic packets, '
         'nothing fabricated after the last frame, EOFError at end of stream; '
-        'identical results for every cut plan. Non-trivial: >= 2 packets and '
+        'identical results for every cut plan. Sessions: 2-4 sessions on one '
+        'Connection object (play sessions with their own compression / '
+        'cipher setting and five ways of ending, status queries in between, '
+        'reconnect directly or after disconnect): every session starts from '
+        'a clean framing state. Non-trivial: >= 2 packets and '
         'one of {payload within +-1 of threshold, unknown id followed by a '
         'known one, a cut inside a length prefix or compressed body, cipher '
         'on}; distinct by full case fingerprint.')
